@@ -18,33 +18,42 @@ def stub_eval(net, **kwargs):
     import pandas as pd
     m = net["_verif_matrix"]
     ins = net.line.in_service.values
-    out = [i for i in range(3) if not ins[i]]
+    n = len(ins)
+    out = [i for i in range(n) if not ins[i]]
     seen = net.get("_verif_seen")
     if seen is not None:
         seen.append([bool(x) for x in ins])
     if len(out) > 1:
         raise RuntimeError("stub: more than one line out of service: %s" % out)
-    c = out[0] if out else 3
+    c = out[0] if out else n
     if m.get("sleep"):
         time.sleep(m["sleep"].get(str(c), 0.0))
     if m.get("log"):
         with open(m["log"], "a") as f:
-            f.write("%d %.6f\n" % (c, time.monotonic()))
+            f.write("%d %.6f %d\n" % (c, time.monotonic(), len(out)))
     if c == m["fail"]:
         raise RuntimeError("stub: case %d fails" % c)
-    if c == 3:
-        load = [1.0 + e for e in range(3)]
+    if c == n:
+        load = [1.0 + e for e in range(n)]
     else:
-        load = [float(m["res"][c][e]) for e in range(3)]
+        load = [float(m["res"][c][e]) for e in range(n)]
         load[c] = float("nan") if m["own"] == 0 else 0.0
     net["res_line"] = pd.DataFrame({"loading_percent": load}, index=net.line.index)
-    net["res_bus"] = pd.DataFrame({"vm_pu": [(95 + 2 * c + b) / 100.0 for b in range(2)]}, index=net.bus.index)
+    net["res_bus"] = pd.DataFrame({"vm_pu": [(95 + (2 * c) % 11 + b) / 100.0 for b in range(2)]}, index=net.bus.index)
     net["converged"] = True
 
 
-def base_net():
+def base_net(n=3):
     import pandapower as pp
     from ..templates import line
+    if n != 3:
+        key = "net%d" % n
+        if key not in _BASE:
+            net = copy.deepcopy(base_net(3))
+            for _ in range(n - 3):
+                line(pp, net, 0, 1, max_loading_percent=2.0)
+            _BASE[key] = net
+        return _BASE[key]
     if "net" not in _BASE:
         net = pp.create_empty_network()
         b0, b1 = pp.create_bus(net, 20.0), pp.create_bus(net, 20.0)
@@ -65,18 +74,19 @@ def num(x):
 
 def project(res, net, seen=None):
     import numpy as np
+    n = len(net.line)
     L = res.get("line", {})
     B = res.get("bus", {})
     p = {"err": ""}
     p["keys"] = sorted("%s.%s" % (t, k) for t in res for k in res[t])
-    p["max"] = [num(x) for x in L.get("max_loading_percent", [np.nan] * 3)]
-    p["min"] = [num(x) for x in L.get("min_loading_percent", [np.nan] * 3)]
-    ci = L.get("cause_index", [None] * 3)
-    ce = L.get("cause_element", [None] * 3)
-    p["cause"] = [int(x) if (x is not None and -1 < int(x) < 3) else -2 for x in ci]
+    p["max"] = [num(x) for x in L.get("max_loading_percent", [np.nan] * n)]
+    p["min"] = [num(x) for x in L.get("min_loading_percent", [np.nan] * n)]
+    ci = L.get("cause_index", [None] * n)
+    ce = L.get("cause_element", [None] * n)
+    p["cause"] = [int(x) if (x is not None and -1 < int(x) < n) else -2 for x in ci]
     p["cause_is_line"] = [bool(x == "line") for x in ce]
-    p["overload"] = [bool(x) for x in L.get("causes_overloading", [False] * 3)]
-    p["n0"] = [num(x) for x in L.get("loading_percent", [np.nan] * 3)]
+    p["overload"] = [bool(x) for x in L.get("causes_overloading", [False] * n)]
+    p["n0"] = [num(x) for x in L.get("loading_percent", [np.nan] * n)]
     p["busmax"] = [num(x * 100) for x in B.get("max_vm_pu", [np.nan] * 2)]
     p["busmin"] = [num(x * 100) for x in B.get("min_vm_pu", [np.nan] * 2)]
     rl = net.res_line
@@ -97,7 +107,7 @@ def observe(job):
     cfg = job["cfg"]
     out = {"cfg": cfg, "has_par": False, "nprocs": job.get("nprocs", 0), "par": dict(EMPTY)}
     cases = {"line": {"index": list(cfg["order"])}}
-    net = copy.deepcopy(base_net())
+    net = copy.deepcopy(base_net(cfg["n"]))
     net["_verif_matrix"] = {"res": cfg["res"], "own": cfg["own"], "fail": cfg["fail"]}
     seen = []
     net["_verif_seen"] = seen
@@ -108,7 +118,7 @@ def observe(job):
         out["seq"] = dict(EMPTY, err="%s: %s" % (type(e).__name__, str(e)[:100]), restored=bool(net.line.in_service.all()))
     if job.get("nprocs", 0) >= 1:
         out["has_par"] = True
-        net2 = copy.deepcopy(base_net())
+        net2 = copy.deepcopy(base_net(cfg["n"]))
         log = "/tmp/ppverif_c15_%d_%d.log" % (os.getpid(), job["id"])
         net2["_verif_matrix"] = {"res": cfg["res"], "own": cfg["own"], "fail": cfg["fail"], "log": log,
                                  "sleep": {str(c): 0.012 * r for r, c in enumerate(job["completion"])}}
@@ -118,8 +128,10 @@ def observe(job):
         except Exception as e:  # noqa
             out["par"] = dict(EMPTY, err="%s: %s" % (type(e).__name__, str(e)[:100]))
         try:
-            stamps = sorted((float(t), int(c)) for c, t in (l.split() for l in open(log)))
-            out["completed_in"] = [c for _, c in stamps if c != 3]
+            recs = [l.split() for l in open(log)]
+            stamps = sorted((float(t), int(c)) for c, t, k in recs)
+            out["completed_in"] = [c for _, c in stamps if c != cfg["n"]]
+            out["par"]["seen_ok"] = all(int(k) <= 1 for c, t, k in recs)     # every case saw at most its own outage
             os.remove(log)
         except Exception:  # noqa
             out["completed_in"] = []
@@ -145,7 +157,7 @@ def key_of(name, c):
     cfg = c["cfg"]
     first = cfg["order"][0]
     return "%s|order_len=%d|own=%s|fail=%s" % (name, len(cfg["order"]), "nan" if cfg["own"] == 0 else "zero",
-                                                "none" if cfg["fail"] == 9 else "case")
+                                                "none" if cfg["fail"] == 99 else "case")
 
 
 def run(tier, seed, replay=None, prop="C14"):
@@ -168,11 +180,14 @@ def run(tier, seed, replay=None, prop="C14"):
             for cr, od in scheds:
                 by_cfg.setdefault(cr, []).append(list(od))
             n = 120 if tier == "quick" else 900
-            pick = rnd.sample(jobs, min(n, len(jobs)))
+            wide = [j for j in jobs if j["cfg"]["n"] > 3]          # chunked dispatch: always replayed
+            small = [j for j in jobs if j["cfg"]["n"] == 3]
+            pick = rnd.sample(small, min(n, len(small))) + wide
             jobs = []
             for k, j in enumerate(pick):
                 ods = by_cfg.get(repr(j["cfg"]), [list(j["cfg"]["order"])])
-                jobs.append({"cfg": j["cfg"], "id": k, "nprocs": 1 + k % 3, "completion": rnd.choice(ods)})
+                jobs.append({"cfg": j["cfg"], "id": k, "nprocs": (1 + k % 3) if j["cfg"]["n"] == 3 else (2 if k % 3 else 3),
+                             "completion": rnd.choice(ods)})
     cases = pool_map(observe, jobs, procs=8 if prop == "C15" else 16)
     for c, j in zip(cases, jobs):
         c["job"] = j
@@ -185,7 +200,7 @@ def run(tier, seed, replay=None, prop="C14"):
                                               " par=%s" % {k: c["par"][k] for k in ("max", "min", "cause", "overload", "err")}
                                               if c["has_par"] else ""), {"job": c["job"]})
     if prop == "C14":
-        nontriv = sum(1 for c in cases if c["cfg"]["fail"] != 9 or any(x == 3 for row in c["cfg"]["res"] for x in row))
+        nontriv = sum(1 for c in cases if c["cfg"]["fail"] != 99 or any(x == 3 for row in c["cfg"]["res"] for x in row))
         rule = ("every configuration of Contingency.tla (9 case orders x 64 outcome matrices x own-outage value NaN/0 x failing "
                 "case none/0/1/2) executed through run_contingency with a stub evaluation function; non-trivial = an overload "
                 "or a failing case in the matrix")
